@@ -84,7 +84,10 @@ func ruleD1(c *Ctx) {
 						// stored into a temp (variadic array, composite literal) or a field of a fresh struct
 						if !derived[x.Addr] {
 							if ia, ok := x.Addr.(*ssa.IndexAddr); ok {
-								if !derived[ia.X] {
+								if _, isSlice := ia.X.Type().Underlying().(*types.Slice); isSlice && x.Val == v {
+									// names[next] = name: filling a pre-sized slice, like append
+									appended = append(appended, ia.X)
+								} else if !derived[ia.X] {
 									derived[ia.X] = true
 									work = append(work, ia.X)
 								}
